@@ -27,7 +27,7 @@ ASSUMPTIONS = ['ThreadSanitizer (happens-before, clang 14) sees only instrumente
                'schedules are perturbed (seeded yields/sleeps between items, OS scheduling), not enumerated; no XERCES_VERIF_HOOKS sites exist',
                'a data-race report / digest mismatch / crash observed once is evidence (replay = up to 6 attempts); only hangs need 3/3',
                'known findings are stepped over by a main-thread warm-up of exactly the racy facility (counted in excluded_known)']
-BUDGET = {'quick': 24, 'thorough': 400}
+BUDGET = {'quick': 16, 'thorough': 400}
 WALLCAP = {'quick': 500, 'thorough': 4500}
 
 # ---------------------------------------------------------------------------------------------------------------
@@ -182,7 +182,28 @@ _WD = [dict(_PD, doc='<!DOCTYPE droot SYSTEM "pool.dtd"><droot><ditem k="b" id="
        dict(_PD, doc='<!DOCTYPE droot SYSTEM "pool.dtd"><droot><dx/><ditem/></droot>'),
        dict(_PD, doc='<!DOCTYPE droot SYSTEM "pool.dtd"><droot><ditem><dx/></ditem><dx>t</dx></droot>'),
        dict(_PD, doc='<!DOCTYPE droot SYSTEM "pool.dtd"><droot><dy><dx/></dy></droot>')]
-POOL_WARM = {'xsd': _WX, 'xsdcat': _WX, 'dtd': _WD, 'both': _WX + _WD}
+POOL_WARM = {'xsd': _WX, 'xsdcat': _WX, 'dtd': _WD, 'both': _WX + _WD, 'deser': []}
+
+# 'deser': the shared pool is serialised and deserialised before it is locked (pool.ser=1).  A restored pool is meant to have every
+# content model built eagerly (ComplexTypeInfo::serialize), so NO pool warm-up is done and the lazy-content-model / lazy-map findings of
+# loadGrammar()ed pools do not apply to it: a race on fContentModel there is a violation.  No pattern facets (their match maps are
+# lazy in any pool), mixed="true" types with sizeable element content next to simple-content / empty / element-only types.
+DESER_N = 120
+POOL_DESER_XSD = ('<xs:schema xmlns:xs="http://www.w3.org/2001/XMLSchema" targetNamespace="urn:pool" xmlns:p="urn:pool" elementFormDefault="qualified">'
+    '<xs:element name="root" type="p:Mixed"/><xs:element name="eroot" type="p:EO"/>'
+    '<xs:complexType name="Mixed" mixed="true"><xs:choice minOccurs="0" maxOccurs="unbounded">'
+    + ''.join('<xs:element name="e%d" type="xs:%s"/>' % (i, ('string', 'int', 'date', 'boolean')[i % 4]) for i in range(DESER_N)) +
+    '<xs:element name="sc" type="p:SC"/><xs:element name="em" type="p:Empty"/><xs:element name="eo" type="p:EO"/><xs:element name="mx" type="p:Mixed2"/>'
+    '<xs:any namespace="##other" processContents="lax"/></xs:choice><xs:anyAttribute namespace="##other" processContents="lax"/></xs:complexType>'
+    '<xs:complexType name="Mixed2" mixed="true"><xs:sequence>'
+    + ''.join('<xs:element name="m%d" type="xs:string" minOccurs="0" maxOccurs="3"/>' % i for i in range(40)) +
+    '</xs:sequence><xs:attribute name="k" type="xs:int"/></xs:complexType>'
+    '<xs:complexType name="SC"><xs:simpleContent><xs:extension base="xs:int"><xs:attribute name="k" type="xs:NMTOKEN"/></xs:extension></xs:simpleContent></xs:complexType>'
+    '<xs:complexType name="Empty"><xs:attribute name="k" type="xs:int"/></xs:complexType>'
+    '<xs:complexType name="EO"><xs:sequence><xs:element name="x" type="xs:string" maxOccurs="unbounded"/><xs:element name="y" type="p:SC" minOccurs="0"/>'
+    '<xs:element name="z" type="p:Mixed2" minOccurs="0"/></xs:sequence></xs:complexType></xs:schema>')
+POOLS['deser'] = {'pool.xsd': POOL_DESER_XSD, 'pool.ser': '1'}
+POOL_IDS = [k for k in KNOWN if KNOWN[k]['warm'] == 'pool']      # findings of loadGrammar()ed pools only
 
 def case_bytes(case):
     top = {'n': len(case['threads']), 'seed': str(case['seed']), 'perturb': case['perturb'],
@@ -236,8 +257,10 @@ def parse_tsan(stderr):
         reps.append({'kind': kind, 'text': ch.strip()[:6000], 'stacks': acc[:2], 'heads': heads[:2], 'unsym': unsym, 'loc': loc[0] if loc else [], 'tops': tops, 'xerces': xer})
     return reps
 
-def classify_report(rep):
+def classify_report(rep, case=None):
+    restored = bool(case) and case.get('pool') == 'deser'
     for kid in ACTIVE:
+        if restored and kid in POOL_IDS: continue          # a restored pool has its content models built eagerly: not this finding
         if KNOWN[kid]['sig'](rep): return kid
     return None
 
@@ -291,7 +314,7 @@ def run_once(case, halt=True):
                 res['unsym'] = res.get('unsym', 0) + 1; continue
             if not rep['xerces']:
                 res['ignored'] += 1; continue
-            kid = classify_report(rep)
+            kid = classify_report(rep, case)
             if kid: res['known'].append(kid); continue
             problems.append('ThreadSanitizer: %s\n%s' % (rep['kind'], rep['text']))
     rc = p.returncode
@@ -319,7 +342,7 @@ def run_once(case, halt=True):
 
 def run_case(case, attempts=1):
     """Run up to `attempts` times; the first failing run decides.  Hangs: replay 3x, violation only if 3/3 hang."""
-    halt = not [k for k in WARMABLE if k not in case.get('prewarm', [])]     # known reports expected -> do not stop at the first one
+    halt = not [k for k in WARMABLE if k not in case.get('prewarm', []) and not (case.get('pool') == 'deser' and k in POOL_IDS)]     # known reports expected -> do not stop at the first one
     last = None
     for a in range(attempts):
         r = run_once(case, halt)
@@ -348,6 +371,16 @@ def run_case(case, attempts=1):
             if c['status'] == 'fail' and c.get('crash'):
                 r['status'] = 'st-defect'; return r
         if r['status'] == 'fail': return r
+        live = (r['summary'] or {}).get('pool_live', -1)
+        if r['status'] == 'ok' and live > 0 and not r['known'] and not case.get('st'):
+            # memory ledger of the restored pool's own memory manager after teardown: compared with the single-threaded control run
+            c = run_once(dict(case, st=1), halt)
+            clive = (c['summary'] or {}).get('pool_live', -1)
+            if c['status'] == 'ok' and clive >= 0 and clive != live:
+                r['status'] = 'fail'
+                r['detail'] = ('blocks of the shared (restored, locked) pool\'s memory manager still live after the pool was deleted: %d after the '
+                               'concurrent run, %d after the same lists run on one thread (objects created lazily inside the shared grammar by racing parsers are lost)' % (live, clive))
+                return r
     return last
 
 # ---------------------------------------------------------------------------------------------------------------
@@ -419,7 +452,30 @@ def parse_item(draw):
     return {'k': 'parse', 'api': api, 'feat': feat, 'doc': doc, 'ents': {'s.xsd': xsd}}
 
 @st.composite
+def dparse_item(draw):
+    """instance of the big mixed="true" type of the restored pool: structure always valid (values may be wrong), new namespace URIs"""
+    uri = 'urn:c17:%d:d' % draw(st.integers(0, 10 ** 6))
+    kids = []
+    for _ in range(draw(st.integers(1, 8))):
+        k = draw(st.integers(0, 9))
+        if k <= 4:
+            i = draw(st.integers(0, DESER_N - 1)); v = draw(st.sampled_from(['x', '12', '2001-02-03', 'true', 'été', '']))
+            kids.append('<p:e%d>%s</p:e%d>' % (i, v, i))
+        elif k == 5: kids.append('<p:sc k="%s">%s</p:sc>' % (draw(st.sampled_from(['a', 'b c'])), draw(st.sampled_from(['1', 'x']))))
+        elif k == 6: kids.append('<p:em k="1"/>')
+        elif k == 7: kids.append('<p:eo><p:x>t</p:x><p:y>7</p:y><p:z k="2">m<p:m3>a</p:m3>n<p:m9>b</p:m9></p:z></p:eo>')
+        elif k == 8: kids.append('<p:mx>t<p:m0>a</p:m0>u<p:m1>b</p:m1><p:m39>c</p:m39></p:mx>')
+        else: kids.append('<n:any xmlns:n="%s" n:a="1"><n:b/></n:any>' % uri)
+        if draw(st.booleans()): kids.append(draw(st.sampled_from(['text', ' Ωμέγα ', '&amp;'])))
+    if draw(st.integers(0, 5)) == 0:
+        doc = '<p:eroot xmlns:p="urn:pool"><p:x>a</p:x><p:z>m<p:m1>q</p:m1></p:z></p:eroot>'
+    else:
+        doc = '<p:root xmlns:p="urn:pool" xmlns:o="%s" o:attr="1">lead%s</p:root>' % (uri, ''.join(kids))
+    return {'k': 'pparse', 'api': draw(st.sampled_from(APIS)), 'feat': 'ns=1;val=1;schema=1;usecached=1;scanner=%s' % draw(st.sampled_from(['IG', 'SG'])), 'doc': doc}
+
+@st.composite
 def pparse_item(draw, pool):
+    if pool == 'deser': return draw(dparse_item())
     api = draw(st.sampled_from(APIS))
     uris = ['urn:c17:%d:%s' % (draw(st.integers(0, 10 ** 6)), c) for c in 'abc']
     use_dtd = pool == 'dtd' or (pool == 'both' and draw(st.booleans()))
@@ -511,11 +567,12 @@ def item_strategy(pool):
 def case_strategy(draw, tier='quick'):
     ns = [2, 2, 2, 3, 3, 3, 4, 4, 4, 4, 8, 8, 16] if tier == 'quick' else [2, 3, 3, 4, 4, 8, 8, 16]
     n = draw(st.sampled_from(ns))
-    pool = draw(st.sampled_from([None, None, None, 'xsd', 'xsdcat', 'dtd', 'both']))
+    pool = draw(st.sampled_from([None, None, None, 'xsd', 'xsdcat', 'dtd', 'both', 'deser', 'deser']))
     maxlen = 12 if n <= 4 else 6
     # homogeneous first items make concurrent first use of one facility likely: optionally give every thread the same kind of first item
     threads = draw(st.lists(st.lists(item_strategy(pool), min_size=1, max_size=maxlen), min_size=n, max_size=n))
     lead = draw(st.sampled_from([None, None, 'dom', 'regex', 'xcode', 'pparse' if pool else 'parse', 'parse', 'storm', 'storm', 'storm']))
+    if pool == 'deser': lead = 'pparse'        # every thread's FIRST item validates the big mixed type of the restored pool right after the barrier
     if lead:
         gen = {'storm': storm_item(), 'dom': dom_item(), 'regex': regex_item(), 'xcode': xcode_item(), 'parse': parse_item(), 'pparse': pparse_item(pool) if pool else parse_item()}[lead]
         threads = [[draw(gen)] + t for t in threads]
@@ -524,7 +581,7 @@ def case_strategy(draw, tier='quick'):
             'flavour': draw(st.sampled_from(['tsan'] * 5 + ['asan']))}
     # step over active known findings in 7 of 8 cases; the remaining ones keep measuring that the finding is still there
     cold = draw(st.sampled_from([False] * 7 + [True]))
-    case['prewarm'] = [] if cold else list(WARMABLE)
+    case['prewarm'] = [] if cold else [k for k in WARMABLE if not (pool == 'deser' and k in POOL_IDS)]
     return case
 
 # ---------------------------------------------------------------------------------------------------------------
@@ -593,7 +650,7 @@ def replay(case, ctx):
         # witness of a known finding: "fails" while the finding's report still appears (no warm-up, up to 6 attempts)
         kid = case['witness_of']
         if kid not in KNOWN: return True, 'unknown finding id'
-        for _ in range(6 if kid in ACTIVE else 3):      # fixed findings (regress/): 3 attempts keep the regression replay cheap
+        for _ in range(6 if kid in ACTIVE else 2):      # fixed findings (regress/): 3 attempts keep the regression replay cheap
             r = run_once(case, halt=False)
             if kid in r['known'] or (kid not in ACTIVE and r['status'] == 'fail'):
                 return False, 'KNOWN %s still present: %s' % (kid, KNOWN[kid]['what'])
